@@ -60,6 +60,7 @@ def sampled_check(contract, ip, n=80, seed=0):
     failures = []
     outcomes = set()
     evals = 0
+    undetermined = 0
     for _ in range(n):
         inputs = sample_inputs(rng, model, maxargs)
         observed, err, next_id = run_native(module, function, inputs)
@@ -71,9 +72,12 @@ def sampled_check(contract, ip, n=80, seed=0):
         if any(v is False for v in pre_ok.values()):
             continue
         bad = [k for k, v in verdicts.items() if v is False]
+        if any(v is None for v in verdicts.values()):
+            undetermined += 1
         if bad:
             failures.append({'inputs': inputs, 'observed': {k: observed[k] for k in observed if k != 'objects'},
                              'failed_clauses': bad})
             if len(failures) >= 3:
                 break
+    sampled_check.last_undetermined = undetermined
     return evals, len(outcomes), failures
